@@ -37,6 +37,8 @@ func errClass(err error) string {
 		return "ENOENT"
 	case errors.Is(err, syscall.EADDRINUSE):
 		return "EADDRINUSE"
+	case errors.Is(err, os.ErrDeadlineExceeded):
+		return "timeout"
 	case errors.Is(err, syscall.EPIPE), errors.Is(err, syscall.ECONNRESET):
 		return "EPIPE/ECONNRESET"
 	case errors.Is(err, os.ErrClosed), errors.Is(err, net.ErrClosed), strings.Contains(err.Error(), "file already closed"), strings.Contains(err.Error(), "closed"):
@@ -159,6 +161,48 @@ func realScenarios(t *testing.T) map[string]string {
 		err := exec.Command(filepath.Join(dir, "no-such-binary")).Start()
 		out["start-missing"] = errClass(err)
 	}
+	// 13. a live listener whose socket file (or its directory) was removed is
+	// out of reach by path; connections made before stay up
+	{
+		d := filepath.Join(dir, "d13")
+		os.Mkdir(d, 0o755)
+		p := filepath.Join(d, "sock")
+		l, _ := net.Listen("unix", p)
+		l.(*net.UnixListener).SetUnlinkOnClose(false)
+		c1, err1 := net.Dial("unix", p)
+		os.RemoveAll(d)
+		_, err2 := net.Dial("unix", p)
+		out["dial-after-dir-removed"] = errClass(err1) + " " + errClass(err2)
+		s1, _ := l.Accept()
+		c1.Write([]byte("still"))
+		buf := make([]byte, 5)
+		_, rerr := io.ReadFull(s1, buf)
+		out["old-conn-after-dir-removed"] = string(buf) + " " + errClass(rerr)
+		c1.Close()
+		s1.Close()
+		l.Close()
+	}
+	// 14. a deadline that has passed fails every later read and write at once,
+	// even with data waiting or room in the buffer; clearing it heals the socket
+	{
+		p := filepath.Join(dir, "l14")
+		l, _ := net.Listen("unix", p)
+		c, _ := net.Dial("unix", p)
+		s, _ := l.Accept()
+		s.Write([]byte("data"))
+		time.Sleep(20 * time.Millisecond)
+		c.SetDeadline(time.Now().Add(-time.Second))
+		_, werr := c.Write([]byte("x"))
+		_, rerr := c.Read(make([]byte, 4))
+		out["io-after-deadline"] = errClass(werr) + " " + errClass(rerr)
+		c.SetReadDeadline(time.Time{})
+		_, werr = c.Write([]byte("x"))
+		_, rerr = c.Read(make([]byte, 4))
+		out["io-after-read-deadline-cleared"] = errClass(werr) + " " + errClass(rerr)
+		c.Close()
+		s.Close()
+		l.Close()
+	}
 	return out
 }
 
@@ -279,6 +323,39 @@ func simScenarios(t *testing.T) map[string]string {
 	{
 		err := simexec.Command("/bin/no-such-binary").Start()
 		out["start-missing"] = errClass(err)
+	}
+	{
+		simos.Mkdir("/tmp/d13", 0o755)
+		l, _ := simnet.Listen("unix", "/tmp/d13/sock")
+		c1, err1 := simnet.Dial("unix", "/tmp/d13/sock")
+		simos.RemoveAll("/tmp/d13")
+		_, err2 := simnet.Dial("unix", "/tmp/d13/sock")
+		out["dial-after-dir-removed"] = errClass(err1) + " " + errClass(err2)
+		s1, _ := l.Accept()
+		c1.Write([]byte("still"))
+		buf := make([]byte, 5)
+		_, rerr := io.ReadFull(s1, buf)
+		out["old-conn-after-dir-removed"] = string(buf) + " " + errClass(rerr)
+		c1.Close()
+		s1.Close()
+		l.Close()
+	}
+	{
+		l, _ := simnet.Listen("unix", "/tmp/l14")
+		c, _ := simnet.Dial("unix", "/tmp/l14")
+		s, _ := l.Accept()
+		s.Write([]byte("data"))
+		c.SetDeadline(time.Now().Add(-time.Second))
+		_, werr := c.Write([]byte("x"))
+		_, rerr := c.Read(make([]byte, 4))
+		out["io-after-deadline"] = errClass(werr) + " " + errClass(rerr)
+		c.SetReadDeadline(time.Time{})
+		_, werr = c.Write([]byte("x"))
+		_, rerr = c.Read(make([]byte, 4))
+		out["io-after-read-deadline-cleared"] = errClass(werr) + " " + errClass(rerr)
+		c.Close()
+		s.Close()
+		l.Close()
 	}
 	return out
 }
